@@ -1,3 +1,4 @@
+import TantivyModel.Proofs.SSTable.BitStream
 import TantivyModel.Proofs.SSTable.Bounds
 import TantivyModel.Proofs.SSTable.WriterBlocks
 import TantivyModel.Proofs.SSTable.StateStack
@@ -737,6 +738,26 @@ theorem C15_whole_file_roundtrip (blockLen : Nat) (ks : List Key) (index : List 
 
 example : openFile (finishFile [8, 0, 0, 0, 0, 16, 17, 33, 18, 19, 17, 20, 0, 0, 0, 0] [0, 0, 0, 0, 0, 0, 0, 0] 3 3)
     = ⟨[8, 0, 0, 0, 0, 16, 17, 33, 18, 19, 17, 20, 0, 0, 0, 0], [0, 0, 0, 0, 0, 0, 0, 0], 3, 3⟩ := by decide
+
+/-- bit level of the block-address store: `extract_bits` is "bits `[addr, addr + nbits)` of the
+little-endian bit stream" for every buffer, address and width ≤ 57 (8-byte window, shift, mask;
+the code asserts ≤ 56) -/
+theorem C15_extract_bits_spec (data : List UInt8) (addr nbits : Nat) (h : nbits ≤ 57) :
+    extractBits data addr nbits = (streamNat data / 2 ^ addr) % 2 ^ nbits :=
+  extractBits_spec data addr nbits h
+
+/-- hence it reads back field `j` of ANY byte buffer that denotes a sequence of `(value, width)`
+fields packed from bit 0 upwards (what `BitPacker::write` produces: value `v` of width `n` lands at
+the running bit position), whatever follows the fields -/
+theorem C15_extract_bits_field (data : List UInt8) (fs : List (Nat × Nat)) (above : Nat)
+    (hstream : streamNat data = packNat fs + 2 ^ bitPos fs fs.length * above)
+    (hfit : ∀ f ∈ fs, f.1 < 2 ^ f.2) (j : Nat) (f : Nat × Nat) (hj : fs[j]? = some f) (hw : f.2 ≤ 57) :
+    extractBits data (bitPos fs j) f.2 = f.1 := by
+  rw [extractBits_spec data _ _ hw, hstream]
+  exact packNat_field fs hfit j f hj above
+
+example : streamNat [0xB5, 0x01] = packNat [(5, 3), (22, 5), (1, 2)] ∧
+    extractBits [0xB5, 0x01] (bitPos [(5, 3), (22, 5), (1, 2)] 1) 5 = 22 := by decide
 
 /-! ## insertion order (DESIGN §8, F6) -/
 
